@@ -72,6 +72,8 @@ pub struct Io {
     /// documentation (see `adopted`): comparison of this run's output stops at the first one.
     pub adopted_at: Option<usize>,
     pub adopted: u64,
+    /// Number of GETC/IN executions (including the one that found the input exhausted).
+    pub input_requests: u64,
 }
 
 impl Io {
@@ -334,6 +336,7 @@ impl Vm {
     }
 
     fn read_input(&mut self, io: &mut Io) -> Result<u32, Stop> {
+        io.input_requests += 1;
         if io.input_pos >= io.input.len() {
             return Err(Stop::InputEof);
         }
